@@ -231,3 +231,41 @@ def threads_free_running(ctx):
     return dict(name='C14-free-running-threads', label='bounded exploration (schedules are not controlled or enumerated)', evaluations=8 * rounds,
                 distinct_nontrivial=len(pats), failures=errs[:10], bound=f'8 threads x {rounds} compile/select calls over {len(pats)} patterns, switch interval 1 us',
                 exhaustive=False, wall_s=round(time.time() - t0, 2))
+
+
+def validate_line_split(ctx):
+    """Assumption A-re-finditer of the get_pattern_context proof, validated exhaustively to a length bound: for every string over
+    {a, LF, CR} the matches of RE_PATTERN_LINE_SPLIT.finditer are, in order, exactly the line breaks (CRLF as one, else a single LF or
+    CR) found by an independent left-to-right scan, followed by one empty match at the end of the string; hence the element facts the
+    contract assumes (offsets ordered, line breaks non-empty, the last match empty at len)."""
+    import itertools
+    import time
+    import sys
+    from .world import REPO
+    if REPO not in sys.path:
+        sys.path.insert(0, REPO)
+    from soupsieve import util
+    t0 = time.time()
+    bound = 7 if ctx['tier'] == 'quick' else 10
+    fails, n = [], 0
+    for L in range(bound + 1):
+        for tup in itertools.product('a\n\r', repeat=L):
+            s = ''.join(tup)
+            n += 1
+            spans = [(m.start(0), m.end(0)) for m in util.RE_PATTERN_LINE_SPLIT.finditer(s)]
+            ref, i = [], 0
+            while i < len(s):
+                if s[i] == '\r' and i + 1 < len(s) and s[i + 1] == '\n':
+                    ref.append((i, i + 2))
+                    i += 2
+                elif s[i] in '\r\n':
+                    ref.append((i, i + 1))
+                    i += 1
+                else:
+                    i += 1
+            ref.append((len(s), len(s)))
+            ok = spans == ref and len(spans) >= 1 and all(util.RE_PATTERN_LINE_SPLIT.match(s, a).end(0) == b for a, b in spans)
+            if not ok and len(fails) < 5:
+                fails.append(dict(string=repr(s), got=spans, expected=ref))
+    return dict(name='A-re-finditer(line split)', evaluations=n, failures=fails, note=f'assumption validation sweep, exhaustive to length {bound} over {{a, LF, CR}} (not proof)',
+                wall_s=round(time.time() - t0, 2))
